@@ -74,9 +74,9 @@ Lemma base_clean s gh l : Inv s gh -> memb l (dirty gh) = false -> base s l = nc
 Proof. intros HI Hd. unfold base. rewrite (inv_clean s gh HI l Hd). reflexivity. Qed.
 
 (* adding a group that is right, on a lineage that becomes dirty *)
-Lemma Inv_add s gh l n start :
+Lemma Inv_add s gh l n start v :
   Inv s gh -> start = nc s + pend s + 1 ->
-  Inv (add_group (with_cache s (update l (base s l + n) (caches s))) {| g_lin := l; g_start := start; g_len := n |})
+  Inv (add_group (with_cache s (update l v (caches s))) {| g_lin := l; g_start := start; g_len := n |})
       {| dirty := l :: dirty gh; stamps := stamps gh ++ [ninj gh]; ninj := ninj gh |}.
 Proof.
   intros HI Hstart. destruct HI as [Hlen Hclean Hfresh Hst Hlog].
@@ -95,11 +95,14 @@ Qed.
 Lemma Inv_step s gh c :
   Inv s gh -> wb_call s gh c = true -> Inv (fst (step s c)) (ghost_step s gh c).
 Proof.
-  intros HI Hwb. destruct c as [l n|l n sim_ok|g|g ok|]; cbn [step ghost_step wb_call] in *.
+  intros HI Hwb. destruct c as [l n|l n c0|l n sim_ok|g|g ok|]; cbn [step ghost_step wb_call] in *.
   - (* Fill *)
     apply andb_true_iff in Hwb. destruct Hwb as [Hwb Hp]. apply andb_true_iff in Hwb. destruct Hwb as [Hn Hd].
     apply negb_true_iff in Hn, Hd. rewrite Hn. proj. apply N.eqb_eq in Hp.
     apply Inv_add; [exact HI|]. rewrite (base_clean s gh l HI Hd). lia.
+  - (* FillAt *)
+    apply andb_true_iff in Hwb. destruct Hwb as [Hn Hc]. apply negb_true_iff in Hn. rewrite Hn. proj.
+    apply N.eqb_eq in Hc. apply Inv_add; [exact HI|]. lia.
   - (* Autofill *)
     apply andb_true_iff in Hwb. destruct Hwb as [Hn Hd].
     apply negb_true_iff in Hn, Hd. rewrite Hn. destruct sim_ok; proj.
@@ -176,7 +179,8 @@ Proof.
   - apply andb_true_iff in Hwb. destruct Hwb as [Hc Hr].
     pose proof (Inv_step s gh c HI Hc) as HI'.
     assert (HL' : Forall (fun e => i_start e = i_expect e) (log (fst (step s c)))).
-    { destruct c as [l n|l n sim_ok|g|g ok|]; simpl in *.
+    { destruct c as [l n|l n c0|l n sim_ok|g|g ok|]; simpl in *.
+      - destruct (n =? 0); simpl; exact HL.
       - destruct (n =? 0); simpl; exact HL.
       - destruct (n =? 0); simpl; [exact HL|]. destruct sim_ok; simpl; exact HL.
       - exact HL.
